@@ -467,6 +467,50 @@ pub fn case_strategy(max_segments: usize) -> impl Strategy<Value = Case> {
         })
 }
 
+/// Bounded-exhaustive histories (small scope): every sequence of `len` operations over a reduced
+/// alphabet of 15 operations, after a fixed prelude that creates a 4-node cluster on a
+/// 3+3+2-proxy layout, for migration_limit 0 and 1.
+pub const ENUM_ALPHABET: usize = 15;
+
+pub fn enum_op(i: usize) -> Op {
+    match i {
+        0 => Op::AddNodes { c: 0, nodes: 4 },
+        1 => Op::AddNodes { c: 0, nodes: 8 },
+        2 => Op::Migrate { c: 0 },
+        3 => Op::Commit { c: 0, i: 0, importing: false },
+        4 => Op::Commit { c: 0, i: 65535, importing: true },
+        5 => Op::ScaleDown { c: 0, nodes: 4 },
+        6 => Op::DeleteFree { c: 0 },
+        7 => Op::Failover { p: 0 },
+        8 => Op::Failover { p: 30000 },
+        9 => Op::Failover { p: 65535 },
+        10 => Op::Balance { c: 0 },
+        11 => Op::Config { c: 0, k: 0, v: 1 },
+        12 => Op::ReAdd { p: 0 },
+        13 => Op::CommitStale { c: 0, i: 0, kind: 0 },
+        _ => Op::AddProxy { host: 2 },
+    }
+}
+
+pub fn enumerated_cases(len: usize) -> Vec<Case> {
+    let mut out = vec![];
+    let total = ENUM_ALPHABET.pow(len as u32);
+    for limit in [0u64, 1] {
+        for code in 0..total {
+            let mut c = code;
+            let mut ops = vec![Op::AddCluster { c: 0, nodes: 4 }];
+            for _ in 0..len {
+                ops.push(enum_op(c % ENUM_ALPHABET));
+                c /= ENUM_ALPHABET;
+            }
+            out.push(Case { cfg: BrokerCfg { hosts: vec![3, 3, 2], migration_limit: limit, ordered: false, quorum: 1, ttl: 60 }, ops });
+        }
+    }
+    out
+}
+
+pub const RULE_ENUM: &str = "[enumerated] small-scope exhaustive: every sequence of N operations (N = 3 quick, 5 thorough) over a reduced alphabet of 15 operations {add 1 chunk, add 2 chunks, migrate, commit first pending (source report), commit last pending (destination report), scale down to 4, delete free nodes, fail over first/middle/last proxy, balance masters, config change, re-register first proxy, stale commit, add proxy} after creating a 4-node cluster on a 3+3+2-proxy layout, for migration_limit 0 and 1; same oracle as the generated histories, evaluated after every step";
+
 // ---------------------------------------------------------------------------
 // The simulator
 // ---------------------------------------------------------------------------
